@@ -119,6 +119,8 @@ HCFG = G.Cfg(varnames=["x", "y"], max_n=4, consts=[0, 1, -1, 2, 0.5, 3, -2, 1.5]
 def gen_member(rng, pool_size, allow_ref=True):
     """A new pool member; with probability ~0.7 it embeds existing members as shared objects."""
     if pool_size == 0 or not allow_ref or rng.random() < 0.3:
+        if rng.random() < 0.35:
+            return G.rule_case(rng, HCFG)                     # every rewrite rule gets traffic inside histories
         return G.rand_tree(rng, rng.randint(1, 7), HCFG)
     ref = lambda: ("Ref", rng.randrange(pool_size))
     small = lambda: G.rand_tree(rng, rng.randint(1, 3), HCFG)
@@ -155,6 +157,8 @@ def gen_points(rng):
     pts.append({"x": rng.choice([2, 3, 1]), "y": rng.choice([2, 1, 3]), "extra": 7.0})
     if rng.random() < 0.5:
         pts.append({"y": rng.choice(vals)})                   # x missing
+    if rng.random() < 0.5:
+        pts += G.collision_twins(rng, ["x", "y"], vals)       # hash(-1) == hash(-2)
     return pts
 
 
@@ -235,6 +239,27 @@ def gen_history(rng, nops, scripted=None):
                 ops.append({"op": "component_at", "d": d, "var": var, "p": p, "as_name": spell})
             elif k == "located_component":
                 ops.append({"op": "located_component", "d": d, "var": var, "as_name": spell})
+    # scripted probe: the same expression queried through the same kind of object at the two hash-colliding twin points
+    twins = [i for i, p in enumerate(points) if p.get("x") in (-1, -2, -1.0, -2.0) or p.get("y") in (-1, -2, -1.0, -2.0)]
+    if len(twins) >= 2 and rng.random() < 0.8:
+        e = rng.randrange(min(npool, len(members) + 2))
+        var = rng.choice(["x", "y"])
+        probe = []
+        kind = rng.choice(["located", "located", "differential", "partial", "at"])
+        for tp in twins[-2:]:
+            if kind == "located":
+                probe += [{"op": "located_new", "e": e, "p": tp}, {"op": "located_component", "d": ndobj, "var": var, "as_name": True}]
+                ndobj += 1
+            elif kind == "differential":
+                probe += [{"op": "differential_new", "e": e, "early": False}, {"op": "differential_at", "d": ndobj, "p": tp},
+                          {"op": "located_component", "d": ndobj + 1, "var": var, "as_name": False}]
+                ndobj += 2
+            elif kind == "partial":
+                probe += [{"op": "partial_new", "e": e, "var": var, "early": rng.random() < 0.5, "as_name": True}, {"op": "partial_at", "d": ndobj, "p": tp}]
+                ndobj += 1
+            else:
+                probe += [{"op": "at", "e": e, "p": tp}]
+        ops += probe          # appended: the numbering of derivative-like objects created before stays valid
     return {"members": [pspec_to_json(m) for m in members], "points": [S.point_to_json(p) for p in points], "ops": ops}
 
 
